@@ -90,6 +90,15 @@ func HarnessSelftest() {
 	hxN("validutf8", utf8.ValidString("a\xc3\x28"))
 	// fmt
 	hxNQ("fmt1", fmt.Sprintf("%s|%d|%03d|%5d|%x|%X|%v|%q|%t|%c|%%", "s", 42, 7, 12, []byte{1, 171}, 255, []string{"a", "b"}, "q\"", true, 'x'))
+	type hxFmtT struct {
+		A string
+		B int
+		C bool
+	}
+	hxNQ("fmtstruct", fmt.Sprintf("%v|%v", &hxFmtT{"x y", 7, true}, hxFmtT{"z", -1, false}))
+	fstr := "a%sb%%c" + string([]byte{'%'}) + "d"
+	hxNQ("fmtdynamic", fmt.Sprintf(fstr, "S", 5))
+	hxNQ("fmtmissing", fmt.Sprintf("x%sy%"))
 	e1 := errors.New("450 4.2.0 busy")
 	e2 := fmt.Errorf("wrapped: %w", e1)
 	hxNQ("errorf", e2.Error())
